@@ -3,11 +3,13 @@ import numpy as np
 
 
 class IBM:
-    def __init__(self, modules, kill=None, age=False, log=None, kill_t0=None, swim=None, settle=None, degdays=None, **kw):
+    def __init__(self, modules, kill=None, age=False, log=None, kill_t0=None, swim=None, settle=None, degdays=None, direct=False, ucur=False, **kw):
         self.modules = modules
         self.kill = kill or {}
         self.age = age
         self.settle = settle or {}  # {step: {pid: flag}}: the particle becomes inactive (stays where it is) from that step on
+        self.direct = direct  # read forcing.variables[name] directly (public attribute) instead of calling forcing.field()
+        self.ucur = ucur  # store the current the particle feels, forcing.field(X, Y, Z, "u"), in state["ucur"]
         self.degdays = degdays  # name of a forcing field to accumulate into state["degdays"] through the documented accessor forcing.field()
         self.swim = swim  # if given: look up lon/lat of the particles (as a light model would), then move them by `swim` cells in X, in place
         self.kill_t0 = kill_t0  # if given, the kill table is keyed by absolute step (time - kill_t0) / dt
@@ -25,8 +27,11 @@ class IBM:
         if self.age:
             state["age"] = state.age + timer.dt / np.timedelta64(1, "s")
         if self.degdays and len(state.X):
-            temp = self.modules["forcing"].field(state.X, state.Y, state.Z, self.degdays)
+            force = self.modules["forcing"]
+            temp = force.variables[self.degdays] if self.direct else force.field(state.X, state.Y, state.Z, self.degdays)
             state["degdays"] = state.degdays + temp
+        if self.ucur and len(state.X):
+            state["ucur"] = self.modules["forcing"].field(state.X, state.Y, state.Z, "u")
         if self.swim is not None and len(state.X):
             lon, lat = self.modules["grid"].xy2ll(state.X, state.Y)
             self.last_lonlat = (lon, lat)
